@@ -2101,6 +2101,7 @@ namespace
         size_t pop_frame_count = 0;
         if (target_scope.empty())
         { // Empty just pops
+            context.clear_values();
             context.pop_frame();
             return left;
         }
@@ -2112,6 +2113,8 @@ namespace
                 {
                     for (pop_frame_count++; pop_frame_count != 0; --pop_frame_count)
                     {
+                        // Values produced by a left scope must not leak into the operands of its callers
+                        context.clear_values();
                         context.pop_frame();
                     }
                     return left;
